@@ -605,16 +605,24 @@ pub fn c04(tier: Tier) -> Vec<Case> {
             linputs.push(format!("{}é", "a".repeat(n)));
             linputs.push(format!("{}\u{212A}", "k".repeat(n)));
         }
+        // a multi-byte character at every byte offset from 40 to 70 (fixed-size windows, buffers)
+        for pad in 40..=70usize {
+            linputs.push(format!("{}é{}", "a".repeat(pad), "a".repeat(8)));
+            linputs.push(format!("{}😀€", "k".repeat(pad)));
+        }
         let spec = InputSpec::List(linputs);
         for e in [
             seq(vec![star(lit("é")), opt(field("c", "char"))]),
+            seq(vec![star(range('a', 'k')), star(field("c", "char"))]),
             seq(vec![star(range('à', 'ë')), star(field("s", "S"))]),
             seq(vec![star(ilit("k")), opt(ilit("ki")), star(field("c", "char"))]),
             seq(vec![star(choice(vec![lit("€"), lit("😀"), range('a', 'é')])), Expr::Eoi]),
             star(field("t", "T")),
         ] {
             let g = root_grammar(vec![Directive::Export, Directive::Position, Directive::NoSkipWs], e, &leaves);
-            add_if_wf(&mut b, "utf8/long-inputs", g, &spec);
+            if add_if_wf(&mut b, "utf8/long-inputs", g, &spec) {
+                b.last().note = "traced-too".into();
+            }
         }
     }
     // the guard itself: non-ASCII case-insensitive literals must be rejected by the compiler; if a changed
@@ -635,6 +643,42 @@ pub fn c04(tier: Tier) -> Vec<Case> {
 pub fn c08(tier: Tier) -> Vec<Case> {
     let mut b = Builder::new();
     directive_matrix(&mut b, "ws/directive-matrix", tier);
+    // choices whose alternatives are single tokens, some of which can match nothing; the end of the enclosing
+    // rule is observed through @position / @string / a @no_skip_ws caller
+    {
+        let inputs = InputSpec::Strings { alphabet: vec!['b', 'c', ' ', 'k'], max_len: if tier == Tier::Quick { 4 } else { 5 } };
+        let alts: Vec<Vec<Expr>> = vec![
+            vec![lit("k"), lit("c"), lit("")],
+            vec![opt(lit("k")), lit("c")],
+            vec![lit("k"), seq(vec![])],
+            vec![field("u", "U"), opt(lit("c"))],
+            vec![lit(""), lit("k")],
+            vec![range('k', 'k'), opt(range('c', 'c'))],
+            vec![Expr::Eoi, lit("k")],
+            vec![lit("k"), star(lit("c"))],
+        ];
+        for al in &alts {
+            for num_kind in 0..3 {
+                let num_dirs = match num_kind {
+                    0 => vec![Directive::Position],
+                    1 => vec![Directive::String],
+                    _ => vec![],
+                };
+                let num = Rule::normal("Num", num_dirs, seq(vec![plus(lit("b")), choice(al.clone())]));
+                let u = Rule::normal("U", vec![], lit("k"));
+                for root_body in [seq(vec![field("n", "Num"), lit(" "), field("m", "Num"), Expr::Eoi]), seq(vec![field("n", "Num"), opt(field("m", "Num"))]), star(field("n", "Num"))] {
+                    for root_noskip in [true, false] {
+                        let mut dirs = vec![Directive::Export, Directive::Position];
+                        if root_noskip {
+                            dirs.push(Directive::NoSkipWs);
+                        }
+                        let g = root_grammar(dirs, root_body.clone(), &[num.clone(), u.clone()]);
+                        add_if_wf(&mut b, "ws/nullable-alternatives", g, &inputs);
+                    }
+                }
+            }
+        }
+    }
     // long whitespace runs between and around two tokens, with the built-in skipper
     {
         let mut inputs: Vec<String> = Vec::new();
@@ -791,7 +835,7 @@ pub fn c09(tier: Tier) -> Vec<Case> {
         Tier::Quick => (3, 4),
         Tier::Thorough => (4, 5),
     };
-    let atoms = vec![field("f", "X"), field("s", "S"), field("e", "E"), field("n", "N"), lit("b"), lit("é"), field("t", "T")];
+    let atoms = vec![field("f", "X"), field("s", "S"), field("e", "E"), field("n", "N"), lit("b"), lit("é"), field("t", "T"), field("o", "O"), field("so", "SO")];
     let inputs = InputSpec::Strings { alphabet: vec!['b', 'c', 'é', ' '], max_len: len };
     let all = trees(&atoms, &NO_LOOKAHEAD_OPS, k);
     // every subset of {X, S, N(+its child), Root} marked @position; E is an enum override of @position rules
@@ -814,6 +858,9 @@ pub fn c09(tier: Tier) -> Vec<Case> {
                     Rule::normal("P1", vec![Directive::Position], seq(vec![lit("c"), lit("c")])),
                     Rule::normal("P2", vec![Directive::Position, Directive::Memoize], seq(vec![lit("c"), opt(lit("é"))])),
                     Rule::ext("T", "hrt::user::tok2", None),
+                    // rules that can match nothing: their range must be empty then
+                    Rule::normal("O", p(0), opt(lit("c"))),
+                    Rule::normal("SO", [vec![Directive::String], p(1)].concat(), star(lit("é"))),
                 ];
                 let mut dirs = vec![Directive::Export, Directive::Position];
                 if root_noskip {
